@@ -229,6 +229,12 @@ func RunHistory(t *rapid.T, st *stats.Collector, o HistOpts) (*World, *LState, *
 	opts := env.Options{}
 	w := NewWorld(t, st, opts, o.Focus...)
 	w.ViaHTTP = o.ViaHTTP
+	if o.ViaHTTP && rapid.IntRange(0, 2).Draw(t, "writesThroughV1") == 0 {
+		w.V1Writes = true
+		if st != nil {
+			st.Class("writes-through-v1-routes")
+		}
+	}
 	fs := o.Features(t)
 	l := w.AddLedger("l1", "b1", fs)
 	var other *LState
